@@ -170,7 +170,9 @@ impl Sim {
             }
             cfg.max_committed_size_per_ready = *rng.pick(&[u64::MAX, u64::MAX, 30, 100]);
             cfg.max_apply_unpersisted_log_limit = *rng.pick(&[0u64, 0, 1, 3]);
-            cfg.priority = if rng.chance(1, 6) { rng.below(3) as i64 } else { 0 };
+            // priorities are only set later through the SetPriority knob: at term 0 a priority-based
+            // pre-vote rejection hits the known finding F9 (term-0 response), which would mask everything else
+            cfg.priority = if rng.chance(1, 6) { 0 * rng.below(3) as i64 } else { 0 };
             cfg.disable_proposal_forwarding = rng.chance(1, 8);
             if force {
                 cfg.priority = 0;
